@@ -185,6 +185,8 @@ char ZCK_PUBLIC_API *zck_get_range_char(zckCtx *zck, zckRange *range) {
         count++;
         ri = ri->next;
     }
+    if(loc == 0)
+        loc = 1; // Empty range gives an empty string
     output[loc-1]='\0'; // Remove final comma
     output = zrealloc(output, loc);
     return output;
